@@ -460,6 +460,98 @@ def r04_6(ctx, fx):
         ctx.ob("R04.6", "poll_next/Identity/offset-advances-by-the-bytes-read", ok, site=fn.site(adv[0]) if adv else fn.site(t.node), cfg=fx.cfg)
 
 
+def r04_7(ctx, fx):
+    """closing does not lose accepted frames: in Sink::poll_close and Substream::close the transport is shut down only after the
+    frames accepted by start_send were handed over - behind a completed flush, or on the edges where `pending_out_frame` is None and
+    `pending_out_frames` is empty.  (`feed(msg); close()` and `stream.forward(sink)` return Ok; without this the peer sees a clean end
+    of stream and no message.)"""
+    n = 0
+    for key in sorted(fx.find(r"^<substream::Substream as futures::Sink<bytes::Bytes>>::poll_close$|^substream::Substream::close::\{closure#0\}$")):
+        fn = fx.fn(key)
+        n += 1
+        ctx.bodies.add((fx.cfg, key))
+        shut = [c.node for c in fn.calls(r"poll_shutdown$|AsyncWriteExt::shutdown$|AsyncWrite>?::poll_close$|SendStream::finish$|::poll_close$")
+                if "Sink" not in c.name]
+        flush = [c for c in fn.calls(r"Sink(<.*>)?>?::poll_flush$|SinkExt::flush$")]
+        e1, e2 = set(), set()
+        for c in fn.calls(r"option::Option(<.*>)?::is_some$"):
+            if "pending_out_frame" in fn.recv(c):
+                for sw, t, f in fn.bool_tests(c.dest[0]):
+                    e1.add((sw, f))
+        for c in fn.calls(r"VecDeque(<.*>)?::is_empty$"):
+            if "pending_out_frames" in fn.recv(c):
+                for sw, t, f in fn.bool_tests(c.dest[0]):
+                    e2.add((sw, t))
+        fl = [c.node for c in flush]
+        if not shut:
+            ctx.ob("R04.7", "%s/transport-shutdown-site-found" % short(key), False, site=fn.site(fn.entry), cfg=fx.cfg)
+            continue
+        always = not any(x in fn.reach([fn.entry], avoid=fl) for x in shut) and bool(fl)
+        guarded = bool(fl) and bool(e1) and bool(e2) and not any(x in fn.reach([fn.entry], avoid=fl, cut=e1) for x in shut) \
+            and not any(x in fn.reach([fn.entry], avoid=fl, cut=e2) for x in shut)
+        ctx.ob("R04.7", "%s/shutdown-only-after-flush-or-with-nothing-queued" % short(key), always or guarded, site=fn.site(shut[0]), cfg=fx.cfg,
+               detail="flush calls: %d; unconditional flush: %s; guarded by both queue tests: %s" % (len(fl), always, guarded))
+    ctx.anchor("R04.7", "close paths of Substream", n, 2, cfg=fx.cfg)
+
+
+def r04_8(ctx, fx):
+    """after a framing error the receiver does not continue with stale state: every `ReadFailure` that Stream::poll_next produces for a
+    malformed / oversized length is preceded on all paths by a store that ends the stream (a flag that poll_next tests on entry) or
+    that resets the partial-length offset.  Polling again after the error is legal for a Stream; with the stale `offset` the next poll
+    slices `size_vec[..offset]` out of range - a remote-triggered panic."""
+    fn = None
+    for k in fx.find(r"substream::Substream as futures::Stream>::poll_next$"):
+        fn = fx.fn(k)
+    if fn is None:
+        return
+    errs = [n for n, s_ in fn.aggregates(r"SubstreamError$", "ReadFailure")]
+    ctx.anchor("R04.8", "poll_next: ReadFailure aggregates", len(errs), 1, cfg=fx.cfg)
+    markers = {}
+    for n, s_ in fn.assigns():
+        l = "".join(str(x) for x in s_["lhs"][1:])
+        m = re.search(r"\.(\w+)$", l)
+        if not m or s_["rv"]["r"] != "use":
+            continue
+        v = fn.const_value(s_["rv"]["o"])
+        if (m.group(1) == "offset" and v == 0) or (fn.local_ty(s_["lhs"][0]) and v == 1 and s_["rv"]["o"].get("k", {}).get("ty") == "bool"):
+            markers.setdefault(m.group(1), []).append(n)
+    tested = set()
+    for sw in [x for x in fn.all_nodes() if fn.is_term(x) and fn.term(x[0])["k"] == "switch"]:
+        o = fn.origin(fn.term(sw[0])["o"])
+        m = re.search(r"\.(\w+)$", o)
+        if m:
+            tested.add(m.group(1))
+    for i, e in enumerate(errs):
+        ok = False
+        why = []
+        for fld, nodes in markers.items():
+            dom = e not in fn.reach([fn.entry], avoid=nodes)
+            if fld == "offset":
+                # the reset must lie between the failed decode and the error, i.e. on every path into the error
+                ok = ok or dom and False
+            else:
+                ok = ok or (dom and fld in tested)
+            why.append("%s: dominates=%s tested=%s" % (fld, dom, fld in tested))
+        ctx.ob("R04.8", "poll_next/ReadFailure#%d-ends-the-stream" % i, ok, site=fn.site(e), cfg=fx.cfg, detail="; ".join(why) or "no marker store found")
+
+
+def r04_9(ctx, fx):
+    """sibling of the fixed-size sender predicate: the tokio-util Encoder of codec::identity accepts a message exactly when its length
+    equals the frame size (a shorter message would be merged with the next one by the fixed-size decoder)"""
+    fn = ctx.fn(fx, "<codec::identity::Identity as tokio_util::codec::Encoder<bytes::Bytes>>::encode", "R04.9")
+    if fn is None:
+        return
+    is_q = lambda f, o: any(x.endswith("Bytes::len") for x in guards.rootstrs(f, o)) and not guards.has_root(f, o, r"\.payload_len")
+    is_b = lambda f, o: guards.has_root(f, o, r"\.payload_len") and not any(x.endswith("Bytes::len") for x in guards.rootstrs(f, o))
+    facts = guards.edge_facts(fn, is_q, is_b)
+    rels = sorted({rel for sw, lab, rel, cn in facts})
+    ctx.ob("R04.9", "Identity::encode/accepts-exactly-len==payload_len", rels == ["!=", "=="], site=fn.site(fn.entry), cfg=fx.cfg,
+           detail="facts on the edges of the length comparison: %s" % rels)
+    eq = {(sw, lab) for sw, lab, rel, cn in facts if rel == "=="}
+    oks = [n for n, sh in fn.exits() if any(x.startswith("Ok") for x in sh)]
+    ctx.ob("R04.9", "Identity::encode/Ok-only-on-the-equal-edge", bool(eq) and bool(oks) and all(n not in fn.reach([fn.entry], cut=eq) for n in oks), site=fn.site(fn.entry), cfg=fx.cfg)
+
+
 def r04_5(ctx, fx):
     for key, nm in ((SINK + "poll_ready", "poll_ready"), (SINK + "poll_flush", "poll_flush"), (STREAM, "poll_next"), (SINK + "poll_close", "poll_close")):
         fn = ctx.fn(fx, key, "R04.5")
@@ -479,6 +571,10 @@ def run(ctx):
         r04_2(ctx, fx)
         r04_4(ctx, fx)
         r04_6(ctx, fx)
+        r04_7(ctx, fx)
+        if cfg == "default":
+            r04_8(ctx, fx)
+            r04_9(ctx, fx)
         if cfg == "default":
             r04_5(ctx, fx)
     ctx.assume("tokio write_all / write_all_chunks write the whole buffer or fail; the transports' poll_write registers the waker when Pending")
